@@ -98,6 +98,10 @@ func init() {
 		reg(&propSpec{ID: c.id, Level: "exploration", QuickSec: 45, ThoroughSec: 1200, DesignRef: c.ref,
 			Scenarios: []scenSpec{{Name: "sess", Share: 1}}, LevelText: c.text + ". Seeded search over schedules, fault sequences and generated workloads on the real package code; violations minimised and replayed exactly. Sampling, not proof.", Rule: sessRule})
 	}
+	reg(&propSpec{ID: "C14", Level: "fault_enumeration", QuickSec: 45, ThoroughSec: 1200, DesignRef: "6.C14",
+		Scenarios: []scenSpec{{Name: "sess", Share: 1}},
+		LevelText: "the session workload of C05-C11 with one fault injected at an exact scheduling step chosen from the tape (and, in the thorough tier, swept over the steps of sampled base runs): the peer process is killed (its goroutines frozen, its descriptors closed, shared memory left as it was), the connection is severed (with or without reset), or Session.Close is called once/twice/concurrently from foreign goroutines during traffic - during the handshake or at any later step. Oracle on the survivors: session closed within 5 s (virtual), no thread still blocked 30 s later, later calls fail, callback streams get exactly one close callback, no panic or access to unmapped memory (quarantined mappings), and after Close of both ends no descriptor, mapping or /dev/shm file of the session is left (ledger of the simulated kernel).",
+		Rule: sessRule + "; fault step drawn during the handshake (absolute step 5..400) or 0..5000 steps after establishment; fault kinds kill_client, kill_server, sever, sever_rst, close_client, close_server, close_both"})
 	reg(&propSpec{ID: "C13", Level: "exploration", QuickSec: 40, ThoroughSec: 1200, DesignRef: "6.C13",
 		Scenarios: []scenSpec{{Name: "fuzz", Share: 1}},
 		LevelText: "real sessions (client and server role, handshake and established phase) whose control connection receives generated wire-format events mutated by truncation, inconsistent lengths, bad magic/version/type, wrong direction or phase, duplication and garbage, delivered under seeded fragmentations and schedules; oracle: no panic or memory fault in any goroutine of the victim process, handshake returns within InitializeTimeout + slack, another session of the same process still completes a round trip, and a well-formed byte string has the same observable effect however it is cut into reads (differential between two victims in the same run).",
@@ -867,18 +871,15 @@ func cmdDeterminism(args []string) int {
 		fmt.Fprintf(os.Stderr, "vcheck: BUILD FAILURE: %v\n", err)
 		return 2
 	}
-	scnSet := map[string]scenSpec{}
-	for _, p := range props {
-		for _, s := range p.Scenarios {
-			scnSet[s.Name] = s
-		}
-	}
+	// one job family per (property, scenario): the property selects generator biases and oracles
 	var names []string
 	if *scnFlag != "" {
 		names = strings.Split(*scnFlag, ",")
 	} else {
-		for n := range scnSet {
-			names = append(names, n)
+		for id, p := range props {
+			for _, s := range p.Scenarios {
+				names = append(names, id+":"+s.Name)
+			}
 		}
 		sort.Strings(names)
 	}
@@ -898,10 +899,14 @@ func cmdDeterminism(args []string) int {
 			for j := range jobs {
 				var ref []string
 				for vi, procs := range []string{"1", "4", "16", "2"} {
-					outPath := filepath.Join(dir, fmt.Sprintf("det-%s-%d-%d.jsonl", j.scn, j.seed, vi))
+					outPath := filepath.Join(dir, fmt.Sprintf("det-%s-%d-%d.jsonl", strings.ReplaceAll(j.scn, ":", "_"), j.seed, vi))
 					cmd := exec.Command(filepath.Join(dir, "sim.test"), "-test.run", "^TestSim$", "-test.timeout", "0")
 					cmd.Dir = dir
-					cmd.Env = append(os.Environ(), "VSIM_MODE=search", "VSIM_SCENARIO="+j.scn, "VSIM_TIER=quick",
+					prop, scnName := "", j.scn
+					if i := strings.IndexByte(j.scn, ':'); i >= 0 {
+						prop, scnName = j.scn[:i], j.scn[i+1:]
+					}
+					cmd.Env = append(os.Environ(), "VSIM_MODE=search", "VSIM_SCENARIO="+scnName, "VSIM_TIER=quick", "VSIM_OPTS={\"property\":\""+prop+"\"}",
 						"VSIM_SEED="+strconv.Itoa(j.seed), "VSIM_START=0", "VSIM_STRIDE=1", "VSIM_COUNT="+strconv.Itoa(*runs),
 						"VSIM_BUDGET_MS=600000", "VSIM_MAX_VIOLATIONS=1000000", "VSIM_OUT="+outPath, "GOMAXPROCS="+procs)
 					if out, err := cmd.CombinedOutput(); err != nil {
